@@ -322,6 +322,15 @@ fn backend(listener: TcpListener, scn: Scn, until: Instant) {
                 let _ = s.write_all(full_cl.as_bytes());
                 held.push(s);
             }
+            "burst103" | "burst100" => {
+                // ONE segment: the interim response, the complete final response (k = 0: close-delimited,
+                // k = 1: Content-Length) and the FIN
+                let interim = if scn.kind == "burst103" { "HTTP/1.1 103 Early Hints\r\nLink: </s.css>; rel=preload\r\n\r\n" } else { "HTTP/1.1 100 Continue\r\n\r\n" };
+                let fin = if scn.k == 0 { &full_cd } else { &full_cl };
+                let _ = s.write_all(format!("{interim}{fin}").as_bytes());
+                let _ = s.flush();
+                let _ = s.shutdown(Shutdown::Both);
+            }
             "cl_close_twice" => {
                 // e2e test_keep_alive shape: a complete Content-Length response carrying
                 // "Connection: close", then the backend closes ITS connection
@@ -570,6 +579,15 @@ fn client(front: SocketAddr, scn: Scn) -> Vec<Resp> {
                 let mut r2 = read_response(&mut s, &mut acc, true);
                 r2.extra = r2.body + if r2.status != 0 { 1 } else { 0 };
                 out.push(r2);
+            }
+        }
+        "burst103" | "burst100" => {
+            let _ = s.write_all(req.as_bytes());
+            let r1 = read_response(&mut s, &mut acc, false);
+            let interim = r1.status / 100 == 1;
+            out.push(r1);
+            if interim {
+                out.push(read_response(&mut s, &mut acc, true));
             }
         }
         "keepalive_close" | "cl_close_twice" => {
